@@ -481,3 +481,35 @@ fn from_data() {
 
     assert_eq!(table, table2);
 }
+
+/// Pass-through accessors for the verification harness.
+#[cfg(feature = "verif_hooks")]
+pub mod verif {
+    use super::*;
+
+    /// (code, num_bits) per symbol
+    pub fn codes(table: &HuffmanTable) -> Vec<(u32, u8)> {
+        table.codes.clone()
+    }
+
+    pub fn write_table(table: &HuffmanTable) -> Vec<u8> {
+        let mut writer = BitWriter::new();
+        let mut encoder = HuffmanEncoder::new(table, &mut writer);
+        encoder.write_table();
+        writer.dump()
+    }
+
+    pub fn encode(table: &HuffmanTable, data: &[u8], with_table: bool) -> Vec<u8> {
+        let mut writer = BitWriter::new();
+        let mut encoder = HuffmanEncoder::new(table, &mut writer);
+        encoder.encode(data, with_table);
+        writer.dump()
+    }
+
+    pub fn encode4x(table: &HuffmanTable, data: &[u8], with_table: bool) -> Vec<u8> {
+        let mut writer = BitWriter::new();
+        let mut encoder = HuffmanEncoder::new(table, &mut writer);
+        encoder.encode4x(data, with_table);
+        writer.dump()
+    }
+}
